@@ -1,21 +1,29 @@
-from vlib.core import Query, Plan
+from vlib.core import Plan
 from harness.inflate_common import plans as P
 
 
 def plan(tier, ctx):
     qs = []
     quick = tier == "quick"
+    # (a) stored blocks through the real isal_inflate_stateless, arbitrary bytes
     ns = [1, 4, 5, 7, 10, 12] if quick else list(range(0, 13))
     aos = [0, 2, 8] if quick else list(range(0, 9))
     for n in ns:
         for ao in aos:
             core = (n, ao) in ((10, 2), (7, 8))
             qs.append(P.stored_query("C06", n, ao, False, core=core, witness=core))
-    # (c) canonical code assignment / over-subscription, dynamic-header prefix
-    for nsym in ([2, 5, 19] if quick else list(range(1, 20))):
-        qs.append(P.setcodes_query(nsym, core=(nsym == 5), witness=(nsym == 5)))
+    # (c) over-subscription detection, dynamic-header HLIT/HDIST rejection
+    for nsym in ([2, 3, 4] if quick else list(range(1, 9)) + [12, 19]):
+        qs.append(P.setcodes_query(nsym, core=(nsym == 3), witness=(nsym == 3), timeout=(None if quick else 2400)))
     qs.append(P.dynprefix_query())
-    # (b) fixed-Huffman block decoder unit (measured: n=1 ~115 s, n=2 ~265 s per cbmc run)
+    # (d) distance lookup-table builder on concrete code-length shapes with ARBITRARY previous table contents:
+    #     undefined codes must decode as invalid regardless of stale state (3-7 s each)
+    shapes = P.MKDIST_SHAPES
+    for i, lens in enumerate(shapes):
+        if quick and i % 2 == 1 and i not in (1, 9):
+            continue
+        qs.append(P.mkdist_query(i, lens, core=(i == 4), witness=(i == 4)))
+    # (b) fixed-Huffman block decoder unit on arbitrary bytes
     if quick:
         fixed = [(1, 0), (1, 3), (2, 3)]
     else:
@@ -24,6 +32,8 @@ def plan(tier, ctx):
         qs.append(P.fixed_query("C06", n, ao, False, core=False, witness=(not quick and (n, ao) == (2, 3)),
                                 timeout=(600 if quick else 2400), mem_gb=(None if quick else 24)))
     return Plan("C06", "model_checking", qs,
-                functions_encoded=["isal_inflate_stateless (driver loop, crc_flag=ISAL_DEFLATE)", "read_header",
-                                   "decode_literal_block", "inflate_in_load", "inflate_in_read_bits"],
-                bounds={}, stubs=[], assumptions=[], outside=[])
+                functions_encoded=P.FUNCS, bounds=P.bounds(False), stubs=P.STUBS,
+                assumptions=P.ASSUMPTIONS + ["flavour: arbitrary bytes (no validity assumption)"],
+                outside=P.OUTSIDE + ["streaming isal_inflate: END_INPUT roll-back and resumption with more input (read_header_stateful)",
+                                     "termination beyond the unwinding bounds derived from the input length (asserted, not assumed)"],
+                trusted_base=["cbmc 6.11 C front end + SAT back end", "spec/rfc1951.h (self-tested against zlib)"])
